@@ -133,6 +133,8 @@ type OpResult struct {
 	AfterA    *GenomeRec
 	AfterB    *GenomeRec
 	Child     *genetics.Genome // duplicate / mate result (nil for in-place mutators)
+	ParentA   *genetics.Genome // the operand objects of a mating
+	ParentB   *genetics.Genome
 	Target    *genetics.Genome // the genome mutated in place (mutators)
 	Ok        bool
 	Err       error
@@ -182,6 +184,7 @@ func (e *OpsEnv) Apply(op, a, b int, lib func(string, func())) *OpResult {
 	case IsMate(op):
 		gb := e.Pool[b]
 		res.FitB = e.Fit[b]
+		res.ParentA, res.ParentB = ga, gb
 		// two different parents may carry the same genome id (ids are per-species offspring counters; an interspecies
 		// mate can easily share the id of the organism it is mated with)
 		if a != b && e.T.Chance("mate.same_genome_id", 1, 5) {
@@ -206,6 +209,12 @@ func (e *OpsEnv) Apply(op, a, b int, lib func(string, func())) *OpResult {
 	default:
 		res.Target = ga
 		res.Times = 1 + e.T.Draw("op.times", 3)
+		// the operand may have been expressed before (a caller that evaluated the genome): Genesis leaves the network
+		// and the phenotype analogues on the genome; a mutator must not take a stale network for the genome's structure
+		if e.T.Chance("op.expressedBefore", 1, 5) {
+			lib("Genesis before "+OpNames[op], func() { _, _ = ga.Genesis(ga.Id) })
+			e.C.Count("probe.op.operand_expressed_before")
+		}
 		lib(OpNames[op], func() {
 			switch op {
 			case OpAddNode:
@@ -232,9 +241,6 @@ func (e *OpsEnv) Apply(op, a, b int, lib func(string, func())) *OpResult {
 				res.Ok, res.Err = genetics.VerifMutateAllNonstructural(ga, e.Opts)
 			}
 		})
-		// mutateAddLink leaves a phenotype built before the gene was inserted on the genome; operands of later
-		// operators must not carry it (a duplicate made by the library never does)
-		ga.Phenotype = nil
 	}
 	res.AfterA = Canon(ga)
 	return res
